@@ -399,3 +399,23 @@ def call(fn, recorder=None):
     finally:
         seams.CUR = prev
     return out
+
+
+def diff_attrs(a, b):
+    """Set of 'kind.attr' names (top-level keys for scalars) in which two dumps differ."""
+    out = set()
+    for k in sorted(set(a) | set(b)):
+        va, vb = a.get(k), b.get(k)
+        if isinstance(va, dict) and isinstance(vb, dict):
+            for oid in sorted(set(va) | set(vb)):
+                ea, eb = va.get(oid, {}), vb.get(oid, {})
+                if not isinstance(ea, dict) or not isinstance(eb, dict):
+                    if ea != eb:
+                        out.add(k)
+                    continue
+                for attr in sorted(set(ea) | set(eb)):
+                    if ea.get(attr) != eb.get(attr):
+                        out.add("%s.%s" % (k, attr))
+        elif va != vb:
+            out.add(k)
+    return out
